@@ -554,7 +554,8 @@ Proof.
     cbn [sim5] in H; try contradiction; try exact H; try reflexivity.
   destruct H as (E & Hs1 & Hf1 & Hk1). cbn [fst snd] in *. subst n'.
   eapply sim5_mono; [intros p q; apply vrel_trans; eassumption|].
-  destruct (n =? -1)%Z; [apply dec_unknown_sim|apply dec_known_sim]; assumption.
+  destruct (n =? -1)%Z; [apply dec_unknown_sim; assumption|].
+  destruct (n <? 0)%Z; [reflexivity | apply dec_known_sim; assumption].
 Qed.
 
 (* --- AdtDeserializer --- *)
